@@ -4,9 +4,11 @@ Each module defines  register(reg) -> {property_id: {unit_name: unit}}.
 """
 import importlib
 
-MODULES = ['util', 'inputfile', 'contextdb', 'tokenizer', 'collector', 'walker', 'visitor', 'parsingstate', 'encoder', 'enctables', 'parsers', 'latex2text', 'mathmode', 'delimited', 'structure', 'legacy']
+MODULES = ['util', 'inputfile', 'contextdb', 'tokenizer', 'collector', 'walker', 'visitor', 'parsingstate', 'encoder', 'enctables', 'parsers', 'latex2text', 'mathmode', 'delimited', 'structure', 'legacy', 'purity', 'nodesplit']
 REPLAYERS = {}
 EXTRA_ASSUMPTIONS = {}
+# evidence level per property when it is not 'proof' (bounded stand-ins are never counted as proved)
+LEVELS = {'C18': 'exploration'}
 
 
 def make_replay(pid, o, model):
@@ -20,6 +22,12 @@ def make_replay(pid, o, model):
     if fn is None and pid == 'C16':
         from contracts import legacy
         fn = legacy.replay
+    if fn is None and pid == 'C09':
+        from contracts import purity
+        fn = purity.replay
+    if fn is None and pid == 'C18':
+        from contracts import nodesplit
+        fn = nodesplit.replay
     if fn is None and pid == 'C10':
         from contracts import mathmode
         fn = mathmode.replay
@@ -70,6 +78,13 @@ def build(reg, only=None):
             for k, u in units.get(src, {}).items():
                 if k in names:
                     units['C02'].setdefault(k, u)
+    # C09: the lookups of the context database have modifies = [] (C14 units) and the parser cache behaves as a function of its key (C02)
+    if 'C09' in units:
+        for src, names in (('C14', ['get_macro_spec', 'get_environment_spec', 'get_specials_spec', 'test_for_specials', 'freeze', 'extended_with']),
+                           ('C02', ['get_standard_argument_parser', 'get_arg_parser_instance'])):
+            for k, u in units.get(src, {}).items():
+                if k in names:
+                    units['C09'].setdefault(k, u)
     # C13's ASCII / 'fail' statements are lemmas over C04's step contract and policy/protection contracts
     if 'C13' in units and 'C04' in units:
         for k, u in units['C04'].items():
